@@ -149,3 +149,13 @@ pub fn optimize(
 ) -> Option<Vec<(usize, EncodationType)>> {
     crate::encodation::planner::optimize(data, written, mode, symbol_list, enabled_modes)
 }
+
+/// See `encodation::verif::macro_prefix`.
+pub fn macro_prefix(data: &[u8], use_macros: bool, fnc1_start: bool) -> (Vec<u8>, Vec<u8>) {
+    crate::encodation::verif::macro_prefix(data, use_macros, fnc1_start)
+}
+
+/// See `encodation::verif::add_padding`.
+pub fn add_padding(codewords: &[u8], ascii_mode: bool, size: SymbolSize) -> Vec<u8> {
+    crate::encodation::verif::add_padding(codewords, ascii_mode, size)
+}
